@@ -203,10 +203,17 @@ def E1_lmpdat_writer_reader(repo, clause):
             raise AnalysisError("E1: writer loop for %ss not found" % k)
         c, a, lp = found
         e = a.elts
+        # the loop counter starts at `start` (enumerate(xs, start=s), default 0): the id column must be 1 in the first iteration and the type must be read at row 0
+        start_, ivar_ = _enum_start(lp)
         a0 = affine(e[0])
-        id_ok = a0 is not None and a0.get("", 0) == 1 and len(a0) == 2
+        id_ok = a0 is not None and start_ is not None and len(a0) <= 2 and a0.get(ivar_, 0) == 1 and a0.get("", 0) + start_ == 1
         a1 = affine(e[1])
         ty_ok = a1 is not None and a1.get("", 0) == 1 and any("%s_types" % k in t for t in a1)
+        if ty_ok and start_ is not None:
+            for x_ in ast.walk(e[1]):
+                if isinstance(x_, ast.Subscript) and is_self_attr(x_.value, "%s_types" % k):
+                    ai = affine(x_.slice)
+                    ty_ok = ai is not None and ai.get(ivar_, 0) == 1 and ai.get("", 0) + start_ == 0 and len(ai) <= 2
         st_ok = isinstance(e[2], ast.Starred) and affine(e[2].value) is not None and affine(e[2].value).get("", 0) == 1
         loop_ok = isinstance(lp.iter, ast.Call) and call_name(lp.iter) == "enumerate" and is_self_attr(lp.iter.args[0], "%ss" % k)
         obs.append(Ob("E1", clause, w, c, id_ok and ty_ok and st_ok and loop_ok,
@@ -377,7 +384,12 @@ def E1_lmpdat_writer_reader(repo, clause):
     # masses: writer (i+1, m, label) over enumerate(self.atom_type_masses); reader masses.append(tup[1]); labels from the comment
     mw = [(c, a) for c, s, a in writes if s is not None and a is not None and isinstance(a, ast.Tuple) and any(
         isinstance(x, ast.For) and is_self_attr(getattr(x.iter, "args", [None])[0] if isinstance(x.iter, ast.Call) else None, "atom_type_masses") for x in w.ancestors(c))]
-    ok = len(mw) == 1 and affine(mw[0][1].elts[0]).get("", 0) == 1 and isinstance(mw[0][1].elts[1], ast.Name)
+    ok = len(mw) == 1 and isinstance(mw[0][1].elts[1], ast.Name)
+    if ok:
+        mlp = [x for x in w.ancestors(mw[0][0]) if isinstance(x, ast.For)][0]
+        start_, ivar_ = _enum_start(mlp)
+        a0 = affine(mw[0][1].elts[0])
+        ok = start_ is not None and a0 is not None and a0.get(ivar_, 0) == 1 and a0.get("", 0) + start_ == 1
     obs.append(Ob("E1", clause, w, mw[0][0] if mw else w.node, ok, "Masses: 1-based type id, mass, label comment over enumerate(self.atom_type_masses)", slot="masses:writer"))
     mr = [n for n in r.own_nodes() if isinstance(n, ast.Call) and isinstance(n.func, ast.Attribute) and n.func.attr == "append" and n.args
           and isinstance(n.args[0], ast.Subscript) and const_value(n.args[0].slice) == 1 and guard_eq(r, n, "Masses")]
@@ -702,6 +714,15 @@ def E_dispatch(repo, clause):
             path_branch = t0.orelse if pos else t0.body
             fd_names = [x.targets[0].id for x in fd_branch if isinstance(x, ast.Assign) and isinstance(x.targets[0], ast.Name) and isinstance(x.value, ast.Name) and x.value.id == fn.params[1]]
             path_names = [x.targets[0].id for x in path_branch if isinstance(x, ast.Assign) and isinstance(x.targets[0], ast.Name) and isinstance(x.value, ast.Name) and x.value.id == fn.params[1]]
+            # the "otherwise" branch also receives open files that are not text streams (binary handles, BytesIO, tempfile wrappers): they are passed through as they are.
+            # A conversion that only a path survives (os.fspath, str, Path) applied there unconditionally turns such a file into a TypeError (or a useless name)
+            for x in path_branch:
+                if isinstance(x, ast.Assign) and isinstance(x.targets[0], ast.Name) and isinstance(x.value, ast.Call) and call_name(x.value) in ("fspath", "str", "Path", "PurePath", "abspath", "normpath", "fsdecode") \
+                        and x.value.args and isinstance(x.value.args[0], ast.Name) and x.value.args[0].id == fn.params[1]:
+                    path_names.append(x.targets[0].id)
+                    obs.append(Ob("E5", clause, fn, x, False,
+                                  "Atoms.%s: `%s` converts EVERY argument that is not a text stream: an open binary file or BytesIO (accepted so far and handed to the format's reader / writer as it is) "
+                                  "now fails or is replaced by a name" % (which, ast.unparse(x)[:50]), slot="%s:path-conversion" % which, positive="robust"))
             FD, PATH = (fd_names[0] if fd_names else None), (path_names[0] if path_names else None)
             fd_st = FD is not None
             raise_in_fd = [x for x in ast.walk(ast.Module(body=fd_branch, type_ignores=[])) if isinstance(x, ast.Raise)]
@@ -1970,6 +1991,15 @@ def E_enumeration_shape(repo, clause):
     return obs
 
 
+def _enum_start(lp):
+    """(first value, name) of the counter of `for i, x in enumerate(xs[, start])`; (None, None) when the loop has another shape"""
+    if not (isinstance(lp.iter, ast.Call) and call_name(lp.iter) == "enumerate" and isinstance(lp.target, ast.Tuple) and isinstance(lp.target.elts[0], ast.Name)):
+        return None, None
+    st_ = kwarg(lp.iter, "start") or (lp.iter.args[1] if len(lp.iter.args) > 1 else None)
+    s0 = 0 if st_ is None else const_value(st_)
+    return (s0 if isinstance(s0, int) else None), lp.target.elts[0].id
+
+
 def E_override_both_directions(repo, clause):
     obs = []
     ex = repo.fn("Atoms.extend")
@@ -2008,6 +2038,30 @@ def E_override_both_directions(repo, clause):
     single = len(rets) == 1 and isinstance(rets[0].value, ast.Name)
     obs.append(Ob("E11", clause, fe, rets[0] if rets else fe.node, bool(ok), "both index lists are returned (union of forward and reverse hits)", slot="both-returned",
                   positive=single))
+    # every return that reports hits reports BOTH directions: a shortcut that hands back the forward hits alone (because "enough" were found) drops the existing terms
+    # written in the opposite order - no count of forward hits implies that there are no reverse hits
+    def _dir_of(c):
+        if not (len(c.args) >= 2 and ast.unparse(c.args[0]) == topo):
+            return None
+        a1 = c.args[1]
+        if ast.unparse(a1) == new:
+            return "f"
+        if isinstance(a1, ast.Call) and call_name(a1) == "flip" and a1.args and ast.unparse(a1.args[0]) == new:
+            return "r"
+        if re.sub(r"\s", "", ast.unparse(a1)) == "%s[:,::-1]" % new:
+            return "r"
+        return None
+    for r_ in rets:
+        try:
+            v_ = expand(fe, r_.value)
+        except Exception:
+            continue
+        dirs = {_dir_of(c) for c in ast.walk(v_) if isinstance(c, ast.Call) and call_name(c) == "cdist"}
+        if dirs in ({"f"}, {"r"}):
+            obs.append(Ob("E11", clause, fe, r_, False,
+                          "`%s` hands back the hits of the %s search only: existing terms written in the %s atom order stay in the structure next to the terms that should override them" % (
+                              ast.unparse(r_)[:50], "forward" if dirs == {"f"} else "reverse", "opposite" if dirs == {"f"} else "same"),
+                          slot="one-direction-return", positive="robust"))
     # call sites: computed against the array before the new rows are appended
     for k in KINDS:
         cs = [c for c in calls_named(ex, "find_existing_topo") if c.args and is_self_attr(c.args[0], "%ss" % k)]
